@@ -46,6 +46,10 @@ def shards(tier):
         out.append({'level': 'B', 'n': n, 'lo': i, 'hi': min(len(shp), i + per), 'tier': tier})
     for gid in universe.ALIAS_GIDS:
         out.append({'level': 'G', 'gid': gid, 'tier': tier})
+    # the output protocol configured with another (legal) character encoding
+    for enc in ENCODINGS:
+        for pos in ('arg', 'field', 'array'):
+            out.append({'level': 'E', 'encoding': enc, 'pos': pos, 'tier': tier})
     return out
 
 
@@ -194,7 +198,7 @@ def client_case(h, ch, mname, args, ret, ih, oh, ctx, res):
     return 'ok'
 
 
-def harnesses(program, res):
+def harnesses(program, res, out_kw=None):
     """one harness per configuration; a schema that does not compile is C06's finding: the lxml configuration is
     skipped (and counted) so that C01 still covers the other validators"""
     from lxml import etree
@@ -202,7 +206,7 @@ def harnesses(program, res):
     for proto in PROTOS:
         for val in VALIDATORS:
             try:
-                hs.append(harness.XmlHarness(program, proto, val))
+                hs.append(harness.XmlHarness(program, proto, val, out_kw=out_kw))
             except etree.XMLSchemaParseError:
                 if val != 'lxml':
                     raise
@@ -210,9 +214,9 @@ def harnesses(program, res):
     return hs
 
 
-def client_harness(program, proto):
+def client_harness(program, proto, out_kw=None):
     """server harness + loopback client sharing one build"""
-    h = harness.XmlHarness(program, proto, None)
+    h = harness.XmlHarness(program, proto, None, out_kw=out_kw)
     capp = spec.make_app(h.b, harness.make_proto(proto), harness.make_proto(proto))
 
     def send(req):
@@ -223,13 +227,13 @@ def client_harness(program, proto):
     return h, {'client': loopback.make_client(capp, send)}
 
 
-def run_program(program, cases, res, shard_desc, want_client=True):
+def run_program(program, cases, res, shard_desc, want_client=True, out_kw=None):
     """cases: list of (site, label, args, ret, ih, oh, casedoc)"""
     m = program['services'][0]['methods'][0]
     mname = m['n']
     style = xsdcodec.body_style(m)
     try:
-        hs = harnesses(program, res)
+        hs = harnesses(program, res, out_kw)
     except Exception as e:
         res['violations'].append({'sig': 'C01|build|%s|%s' % (shard_desc, type(e).__name__),
                                   'what': 'application for a legal program cannot be built: %r' % (e,),
@@ -239,7 +243,7 @@ def run_program(program, cases, res, shard_desc, want_client=True):
     if want_client and style == 'wrapped':
         for proto in PROTOS:
             try:
-                chs.append(client_harness(program, proto))
+                chs.append(client_harness(program, proto, out_kw))
             except Exception as e:
                 res['violations'].append({'sig': 'C01|client-build|%s|%s' % (proto, type(e).__name__),
                                           'what': 'client application cannot be built: %r' % (e,),
@@ -310,9 +314,21 @@ def cases_G(gid, tier):
     return out
 
 
+ENCODINGS = ['iso-8859-1', 'utf-16', 'ascii', 'utf-8']
+
+
 def run_shard(shard):
     res = new_res()
     tier = shard.get('tier', 'quick')
+    if shard['level'] == 'E':
+        program = universe.program_for(atom_by_id('Unicode'), shard['pos'])
+        res['cov']['programs'] += 1
+        cases = []
+        for c in cases_A('Unicode', shard['pos'], 'thorough'):
+            cases.append(c[:6] + (dict(c[6], out_kw={'encoding': shard['encoding']}),) + c[7:])
+        run_program(program, cases, res, 'E|%s|%s' % (shard['encoding'], shard['pos']), out_kw={'encoding': shard['encoding']})
+        res['cov']['encodings'] = 1
+        return compress(res)
     if shard['level'] == 'G':
         program = universe.alias_program(shard['gid'])
         res['cov']['programs'] += 1
@@ -388,10 +404,10 @@ def replay(case):
     mname = program['services'][0]['methods'][0]['n']
     ctx = {'site': site, 'case': case}
     if case.get('client'):
-        h, ch = client_harness(program, case['proto'])
+        h, ch = client_harness(program, case['proto'], case.get('out_kw'))
         client_case(h, ch, mname, args, ret, ih, oh, ctx, res)
     else:
-        h = harness.XmlHarness(program, case['proto'], case['validator'])
+        h = harness.XmlHarness(program, case['proto'], case['validator'], out_kw=case.get('out_kw'))
         run_case(h, mname, args, ret, ih, oh, ctx, res)
     return res['violations']
 
